@@ -536,6 +536,139 @@ fn embed(module: &[u8], pieces: &[(usize, &'static str, Vec<u8>)]) -> Option<Vec
 }
 
 // ------------------------------------------------------------------------------------------------
+// model VM (5): the real serialised module, decoded by the extracted codec and run on the extracted model VM
+// (coq/extract/c12vm).  What the codec does not model travels as side information: record field names and the
+// module's globals with the value fields of their types.
+
+/// The skeleton bytes cut out of the REAL bincode serialisation of the module, in the skeleton's order:
+/// header, instruction vector, number of inner functions (it follows the instruction vector in the real
+/// stream), inner functions, strings.
+fn slices_from_module(module: &[u8], sk: &SkFn, fixed: bool) -> Option<Vec<u8>> {
+    let mut pieces = vec![];
+    real_skeleton_bytes(sk, fixed, &mut 0, &mut pieces).ok()?;
+    let pos = embed(module, &pieces)?;
+    fn go(f: &SkFn, module: &[u8], pieces: &[(usize, &'static str, Vec<u8>)], pos: &[usize], cursor: &mut usize, fixed: bool, out: &mut Vec<u8>) -> Option<()> {
+        let h = *cursor;
+        out.extend_from_slice(&module[pos[h]..pos[h] + pieces[h].2.len()]);
+        let i = h + 1;
+        let end_i = pos[i] + pieces[i].2.len();
+        out.extend_from_slice(&module[pos[i]..end_i]);
+        *cursor += 2;
+        let lp = benc(&(f.inner.len() as u64), fixed);
+        if !module[end_i..].starts_with(&lp) {
+            return None;
+        }
+        out.extend_from_slice(&module[end_i..end_i + lp.len()]);
+        for g in &f.inner {
+            go(g, module, pieces, pos, cursor, fixed, out)?;
+        }
+        let st = *cursor;
+        out.extend_from_slice(&module[pos[st]..pos[st] + pieces[st].2.len()]);
+        *cursor += 1;
+        Some(())
+    }
+    let mut out = vec![];
+    go(sk, module, &pieces, &pos, &mut 0, fixed, &mut out)?;
+    Some(out)
+}
+
+/// base/src/symbol.rs `Name::declared_name`: no leading `@`, no `@line_col` suffix, last dotted component
+fn declared_name(n: &str) -> String {
+    let n = n.strip_prefix('@').unwrap_or(n);
+    let n = match n.bytes().rposition(|b| (b < b'0' || b > b'9') && b != b'_') {
+        Some(i) if n.as_bytes()[i] == b'@' => &n[..i],
+        _ => n,
+    };
+    n.rsplit('.').next().unwrap_or(n).to_string()
+}
+
+/// ids of the shared symbols of a JSON serialisation: every `{"Marked":[id, "name"]}` in document order
+fn symbol_table(n: &JNode, text: &[u8], out: &mut BTreeMap<u64, String>) {
+    match &n.kind {
+        JKind::Obj(fs) => {
+            if fs.len() == 1 && fs[0].0 == "Marked" {
+                if let (Some(id), Some(name)) = (fs[0].1.at(0), fs[0].1.at(1)) {
+                    if let JKind::Str = name.kind {
+                        if let (Ok(id), Ok(name)) = (String::from_utf8_lossy(id.text(text)).parse::<u64>(), serde_json::from_slice::<String>(name.text(text))) {
+                            out.insert(id, name);
+                        }
+                    }
+                }
+            }
+            for (_, v) in fs {
+                symbol_table(v, text, out);
+            }
+        }
+        JKind::Arr(a) => {
+            for v in a {
+                symbol_table(v, text, out);
+            }
+        }
+        _ => {}
+    }
+}
+
+fn symbol_name(n: &JNode, text: &[u8], table: &BTreeMap<u64, String>) -> Option<String> {
+    if let Some(p) = jsymbol_name(n) {
+        return serde_json::from_slice::<String>(p.text(text)).ok();
+    }
+    let r = n.get("Reference")?;
+    let id = String::from_utf8_lossy(r.text(text)).parse::<u64>().ok()?;
+    table.get(&id).cloned()
+}
+
+fn hexname(s: &str) -> String {
+    if s.is_empty() { "-".into() } else { hex(s.as_bytes()) }
+}
+
+/// `nrec { k { name } } ninner { rtree }` for the function node `f`
+fn records_tree(f: &JNode, text: &[u8], table: &BTreeMap<u64, String>, out: &mut String) -> Option<()> {
+    let recs = f.get("records")?;
+    out.push_str(&format!("{}", recs.len()));
+    for k in 0..recs.len() {
+        let r = recs.at(k)?;
+        out.push_str(&format!(" {}", r.len()));
+        for j in 0..r.len() {
+            let name = symbol_name(r.at(j)?, text, table)?;
+            out.push(' ');
+            out.push_str(&hexname(&declared_name(&name)));
+        }
+    }
+    let inner = f.get("inner_functions")?;
+    out.push_str(&format!(" {}", inner.len()));
+    for k in 0..inner.len() {
+        out.push(' ');
+        records_tree(inner.at(k)?, text, table, out)?;
+    }
+    Some(())
+}
+
+/// `n { global-name k { field } }`: the module's globals in order (they are the upvariables of the top-level
+/// function) with the value fields of their record types in type order (as harness/src/mg/bytecode.rs does)
+fn globals_line(vm: &RootedThread, root: &JNode, text: &[u8], table: &BTreeMap<u64, String>) -> Option<String> {
+    use gluon::base::types::TypeExt;
+    let gs = root.get("module")?.get("module_globals")?;
+    let mut out = format!("{}", gs.len());
+    for k in 0..gs.len() {
+        let name = symbol_name(gs.at(k)?, text, table)?;
+        let gname = name.trim_start_matches('@').to_string();
+        let mut fields: Vec<String> = vec![];
+        if let Ok(t) = vm.get_global_type(&gname) {
+            let t = gluon::base::resolve::remove_aliases(&vm.get_env(), &mut gluon::base::types::NullInterner, t);
+            for field in t.remove_forall().row_iter() {
+                fields.push(field.name.declared_name().to_string());
+            }
+        }
+        out.push_str(&format!(" {} {}", hexname(&gname), fields.len()));
+        for f in fields {
+            out.push(' ');
+            out.push_str(&hexname(&f));
+        }
+    }
+    Some(out)
+}
+
+// ------------------------------------------------------------------------------------------------
 // corruptions (4)
 
 #[derive(Clone, Debug)]
@@ -1297,6 +1430,9 @@ fn main() {
     let mut model_in = args.file("model_in.txt");
     let mut impl_out = args.file("impl_out.txt");
     let mut cases_txt = args.file("cases.txt");
+    let mut vm_in = args.file("vm_in.txt");
+    let mut vm_expect = args.file("vm_expect.txt");
+    let mut vm_cases = args.file("vm_cases.txt");
     let mut hist = Hist::default();
     let mut findings = Findings::default();
     let mut distinct = HashSet::new();
@@ -1409,6 +1545,7 @@ fn main() {
             None
         };
         let mut poisoned = false;
+        let mut precompiled_outcome: Option<String> = None;
         for (fmt, bytes) in &blobs {
             // `load_bytecode` is only ever called in child processes (below): on the unchanged tree it can block
             // for ever on the compiler database lock it already holds
@@ -1428,6 +1565,9 @@ fn main() {
                         Loaded::Panic(m) => format!("PANIC {}", m),
                     };
                     hist.add(&format!("load:{}:{}:{}", fmt.name(), api.name(), if got_s == expected { "same" } else { "differs" }));
+                    if *fmt == Fmt::BinFix && vmname == "fresh" {
+                        precompiled_outcome = Some(got_s.clone());
+                    }
                     if got_s != expected {
                         let case_json = serde_json::json!({"check": "roundtrip", "source": case.source, "format": fmt.name(), "api": api.name(), "vm": vmname, "prelude": prelude});
                         let rejects_own = matches!(&got, Loaded::Out(o) if is_load_error(o)) && !is_load_error(&src_out);
@@ -1521,6 +1661,28 @@ fn main() {
             impl_line = "not-embedded: the modelled pieces do not occur in order in the real bincode serialisation".into();
         }
         tie(&line, &impl_line);
+        // (5) the real module on the model VM
+        if let Some((_, jbytes)) = blobs.iter().find(|(f, _)| *f == Fmt::Json) {
+            let vm_line = (|| -> Option<String> {
+                let root = jparse(jbytes)?;
+                let mut table = BTreeMap::new();
+                symbol_table(&root, jbytes, &mut table);
+                let g = globals_line(&vm, &root, jbytes, &table)?;
+                let mut r = String::new();
+                records_tree(root.get("module")?.get("function")?, jbytes, &table, &mut r)?;
+                let f = slices_from_module(&blobs.iter().find(|(f, _)| *f == Fmt::BinFix)?.1, &sk, true)?;
+                let v = slices_from_module(&blobs.iter().find(|(f, _)| *f == Fmt::BinVar)?.1, &sk, false)?;
+                Some(format!("G {} R {} F {} V {} J {}", g, r, if f.is_empty() { "-".into() } else { hex(&f) }, if v.is_empty() { "-".into() } else { hex(&v) }, line))
+            })();
+            if let Some(l) = vm_line {
+                writeln!(vm_in, "{}", l).unwrap();
+                writeln!(vm_expect, "{}\t{}", expected, precompiled_outcome.clone().unwrap_or_else(|| "?".into())).unwrap();
+                let modelled = deps.iter().all(|d| matches!(d.as_str(), "mg.prim" | "std.prim" | "std.array.prim" | "std.types"));
+                writeln!(vm_cases, "{}\t{}\t{}\t{}", case.family, if case.program.is_some() { "typed" } else { "untyped" }, if modelled { "globals-modelled" } else { "globals-unmodelled" }, case.source.replace('\n', "\\n")).unwrap();
+            } else {
+                hist.add("model-vm:line-not-built");
+            }
+        }
         {
             let mut fns = vec![];
             flat(&sk, &mut fns);
@@ -1587,6 +1749,9 @@ fn main() {
     model_in.flush().unwrap();
     impl_out.flush().unwrap();
     cases_txt.flush().unwrap();
+    vm_in.flush().unwrap();
+    vm_expect.flush().unwrap();
+    vm_cases.flush().unwrap();
     let t_inproc = t_start.elapsed();
     eprintln!("c12: {} programs run, compiled and re-loaded in process in {:?}; {} child jobs", evaluations, t_inproc, jobs.len());
     drop(vm_same);
